@@ -28,7 +28,10 @@ def build(cfg, seed):
     off_sig = (3.0, 5.0)
     model = pm.Model()
     with model:
-        offs = [xu.with_unit(pm.Normal(f"dv0_{k + 1}", 0.0, off_sig[k] * vf), vu) for k in range(no)]
+        # "off_ms": only the survey offsets are declared in m/s (every linear parameter carries its OWN unit)
+        of = 1000.0 if units in ("prior_ms", "off_ms") else 1.0
+        ou = u.m / u.s if units in ("prior_ms", "off_ms") else u.km / u.s
+        offs = [xu.with_unit(pm.Normal(f"dv0_{k + 1}", 0.0, off_sig[k] * of), ou) for k in range(no)]
         kw = {}
         if cfg["jitter"] == "sampled":
             kw["s"] = xu.with_unit(pm.LogNormal("s", np.log(0.5 * vf), 0.7), vu)
@@ -67,7 +70,7 @@ def build(cfg, seed):
             idx = np.arange(n)[k::S]
             labels[idx] = k
             data.append(tj.RVData(Time(t[idx], format="mjd", scale="tcb"), y[idx] * u.km / u.s, sig[idx] * ef * err_unit))
-    dec = dict(sig_v=sig_v[:pt_], off_sig=off_sig[:no], sigma_K0=25.0, P0=365.25, vf=vf, Pf=(1 * u.day).to_value(Pu), jitter=cfg["jitter"])
+    dec = dict(sig_v=sig_v[:pt_], off_sig=off_sig[:no], sigma_K0=25.0, P0=365.25, vf=vf, of=of, Pf=(1 * u.day).to_value(Pu), jitter=cfg["jitter"])
     return model, prior, data, dict(t=t, y=y, sig=sig, labels=labels, t_ref=t_ref_val), dec
 
 
@@ -98,7 +101,7 @@ def point_for(model, dec, th, x, pt_, no):
            "__M0_angle1": np.array(np.sin(M0)), "__M0_angle2": np.array(np.cos(M0)),
            "K": np.array(x[0] * vf), "v0": np.array(x[1] * vf)}
     for k in range(no):
-        pnt[f"dv0_{k + 1}"] = np.array(x[2 + k] * vf)
+        pnt[f"dv0_{k + 1}"] = np.array(x[2 + k] * dec["of"])
     for i in range(1, pt_):
         pnt[f"v{i}"] = np.array(x[1 + no + i] * vf)
     if dec["jitter"] == "sampled":
@@ -186,7 +189,7 @@ def check_config(cfg, seed, part):
     want_init = {"P": Ps[j] * Pf, "e": np.linspace(0.1, 0.5, nrows)[j], "omega": np.linspace(0.3, 5.0, nrows)[j], "M0": np.linspace(0.2, 6.0, nrows)[j],
                  "s": np.linspace(0.1, 0.9, nrows)[j] * vf, "K": np.linspace(-4.0, 9.0, nrows)[j] * vf}
     for c, nm in enumerate(lin_names):
-        want_init[nm] = (np.linspace(-1.0, 2.0, nrows)[j] + 0.1 * c) * vf
+        want_init[nm] = (np.linspace(-1.0, 2.0, nrows)[j] + 0.1 * c) * (dec["of"] if nm.startswith("dv0_") else vf)
     part.evals += 1
     for k, w in want_init.items():
         if k not in init or not np.allclose(float(init[k]), w, rtol=1e-10, atol=1e-12):
@@ -334,6 +337,8 @@ def configs(quick):
         if quick and (pt_ + no + (jit == "sampled") + ["default", "P_yr", "prior_ms", "err_ms"].index(un)) % 3 != 0:
             continue
         out.append(dict(poly_trend=pt_, n_offsets=no, jitter=jit, units=un, n_init=5 if (pt_ + no) % 2 else 1))
+    for pt_, no, jit in ((1, 1, "constant"), (2, 2, "sampled"), (3, 1, "constant")):
+        out.append(dict(poly_trend=pt_, n_offsets=no, jitter=jit, units="off_ms", n_init=5 if pt_ == 2 else 1))
     for pt_, no, jit in ((1, 0, "constant"), (2, 1, "sampled"), (3, 0, "constant"), (2, 2, "constant")):
         out.append(dict(poly_trend=pt_, n_offsets=no, jitter=jit, units="default", n_init=5, logprobs=True))
         out.append(dict(poly_trend=pt_, n_offsets=no, jitter=jit, units="prior_ms" if no else "default", n_init=5, hook=True))
